@@ -55,7 +55,8 @@ def scenarios(draw):
         mcs0 = mcs0 if mcs0 in (2, 3, 5, 100) else 3
         script = [item for item in script if not any("settings" in a and int(a["settings"]["3"]) < 2 for a in item["do"])]
     return {"kind": kind, "callers": callers, "plans": plans, "mcs0": mcs0, "script": script, "max_connections": draw(st.sampled_from([1, 1, 2])),
-            "choices": draw(st.lists(st.integers(0, 15), min_size=10, max_size=160)), "segs": draw(st.lists(st.sampled_from([0, 0, 1, 5, 9, 13, 100]), max_size=5))}
+            "choices": draw(st.lists(st.integers(0, 15), min_size=10, max_size=160)), "segs": draw(st.lists(st.sampled_from([0, 0, 1, 5, 9, 13, 100]), max_size=5)),
+            "runtime": draw(st.sampled_from(["asyncio", "asyncio", "trio"]))}
 
 
 def run(sc):
@@ -80,7 +81,9 @@ def run(sc):
         r.final_repr = repr(r.pool)
         await r.pool.aclose()
 
-    r = AioRun(world, pool_cfg, callers, choices=sc["choices"], segs=sc["segs"], epilogue=epilogue, step_limit=8000)
+    from ..trio_run import make_run
+
+    r = make_run(sc.get("runtime"))(world, pool_cfg, callers, choices=sc["choices"], segs=sc["segs"], epilogue=epilogue, step_limit=8000)
     r.final_repr = None
     r.run()
     return r, world, callers
@@ -156,7 +159,7 @@ def execute(sc) -> Outcome:
         if c.error is not None:
             vio.append(V(P, "caller-crashed", f"caller {c.id}: {c.error}", **base))
     max_open = max([h2.max_open_seen for h2 in peers] or [0])
-    tags = [sc["kind"], f"n={len(callers)}", f"mcs0={sc['mcs0']}", f"max-open={min(max_open, 8)}"]
+    tags = [sc["kind"], f"n={len(callers)}", f"mcs0={sc['mcs0']}", f"max-open={min(max_open, 8)}", "runtime-" + (sc.get("runtime") or "asyncio")]
     if lowered:
         tags.append("settings-lowered-below-in-flight")
     if decrease:
